@@ -269,7 +269,46 @@ pub fn debug_fmt<T, N: ArrayLength, const R: usize>() {
     kani_cover!(s1.len > 19 || n == f + b);
 }
 
+/// zero-sized elements: the queue is its *length* only; every method must still consume / visit exactly as many items as a queue would
+pub fn zst_queue<T, N: ArrayLength, const R: usize>() {
+    let n = N::USIZE;
+    let mut it = GenericArray::<(), N>::generate(|_| ()).into_iter();
+    let f = any_upto(n);
+    let b = any_upto(n);
+    assume(f + b <= n);
+    let mut k = 0;
+    while k < f { assert!(it.next().is_some()); k += 1; }
+    k = 0;
+    while k < b { assert!(it.next_back().is_some()); k += 1; }
+    let len = n - f - b;
+    assert!(it.len() == len);
+    let op = any_upto(8);
+    let arg = any_usize();
+    kani_cover!(op == 8 && len > 0 || n == 0);
+    kani_cover!(op == 2 && arg < len || n == 0);
+    match op {
+        0 => { assert!(it.next().is_some() == (len > 0)); assert!(it.len() == len.saturating_sub(1)); }
+        1 => { assert!(it.next_back().is_some() == (len > 0)); assert!(it.len() == len.saturating_sub(1)); }
+        2 => { let r = it.nth(arg); assert!(r.is_some() == (arg < len)); assert!(it.len() == if arg < len { len - arg - 1 } else { 0 }); }
+        3 => { let r = it.nth_back(arg); assert!(r.is_some() == (arg < len)); assert!(it.len() == if arg < len { len - arg - 1 } else { 0 }); }
+        4 => { assert!(it.size_hint() == (len, Some(len))); assert!(it.as_slice().len() == len); }
+        5 => { assert!(it.count() == len); }
+        6 => { assert!(it.last().is_some() == (len > 0)); }
+        7 => { let c = it.fold(0usize, |acc, _| acc + 1); assert!(c == len, "fold over zero-sized elements did not visit every remaining element"); }
+        _ => { let c = it.clone().rfold(0usize, |acc, _| acc + 1); assert!(c == len, "rfold over zero-sized elements did not visit every remaining element"); assert!(it.len() == len); }
+    }
+}
+
 pub mod q {
+    pub mod zst_queue {
+        use super::super::zst_queue;
+        use crate::common::*;
+        lattice! { zst_queue;
+            n0: <(), U0, 0> unwind 3;
+            n1: <(), U1, 0> unwind 4;
+            n3: <(), U3, 0> unwind 6;
+        }
+    }
     pub mod step {
         use super::super::step;
         use crate::common::*;
